@@ -1245,6 +1245,17 @@ def rule_keydiff_type(ctx, units=None):
             why = rt['s']
             if rt.get('k') == 'float':
                 ok = True
+                # a floating difference of *integer* keys: each operand is rounded to the floating type before the subtraction, so
+                # the difference is exact only if the key type fits the mantissa (24 bits for float, 53 for double).  For wider keys
+                # (64-bit) two keys closer than one ulp of their magnitude collapse and the estimate is off by whole segments; the
+                # integer difference, taken first, is exact.
+                mant = 24 if rt.get('bits', 64) <= 32 else 53
+                if kt and kt.get('k') == 'int' and kt.get('bits', 0) > mant:
+                    ops_int = [f.unit.type(f.n(f.strip(c_, casts=True)).get('t', 0)) or {} for c_ in f.n(i)['ch']]
+                    if all(o_.get('k') == 'int' for o_ in ops_int):
+                        ok = False
+                        why = (f"{rt['s']}: both {kt['s']} operands are converted to {rt['s']} before the subtraction - keys above 2^{mant} that differ by less than an ulp "
+                               f"give the same value; the difference must be taken in the integer type and converted afterwards")
             elif rt.get('k') == 'int':
                 if not rt.get('signed'):
                     ok = True
